@@ -196,6 +196,7 @@ package fiber
 //   - the backing array (up to its capacity) holds zero messages (a pooled array keeps earlier contents,
 //     and the element decoder only stores the fields that are present).
 //@ func (*redirectionMsgs).UnmarshalMsg
+//@   props C12 C07
 //@   requires count-bounded-by-input: rdArrOK(str(bts)) ==> rdArrV(str(bts)) <= len(bts)
 //@   requires zeroed-backing: forall(k, 0, cap(*z), zeroMsg((*z)[:cap(*z)][k]))
 //@   modifies *z, elems(*z)
@@ -219,8 +220,8 @@ package fiber
 //   pre:count-bounded-by-input / pre:zeroed-backing (obligations at the decoder call): memory
 //                             proportional to the cookie, and nothing of an earlier request shows through
 //@ func (*Redirect).parseAndClearFlashMessages
+//@   props C12 C05 C07
 //@   requires bound: r.c != nil && r.c.app != nil && r.c.fasthttp != nil
-//@   requires fresh-context: len(r.c.flashMessages) == 0
 //@   assumes app-wf: wfImmutable(r.c)   // start-up state; precondition of (*DefaultCtx).Cookies (zz_contracts_c06_verif.go)
 //@   modifies r.c.flashMessages, elems(r.c.flashMessages), jarHas, jarVal, jarAttr, jarVisits, jarVisitAtNext
 //@   modifies heap(C_fiber_redirectionMsgs)   // generator artefact: &r.c.flashMessages is passed to the decoder through a scratch cell (copy-in/copy-out)
